@@ -241,7 +241,7 @@ PROPS = {
     },
     "C17": {
         "lean_files": ["AriesVerif/C17/Model.lean", "AriesVerif/C17/Props.lean", "AriesVerif/C17/Algebra.lean",
-                       "AriesVerif/C17/Drv.lean"],
+                       "AriesVerif/C17/Drv.lean", "AriesVerif/C17/Guards.lean"],
         "lake_targets": ["AriesVerif"],
         "classify": c17_classify,
         "nontrivial": lambda inp, out: "honest=ok" in out and ("neg=fail" in out or "neg=ok" in out),
